@@ -47,6 +47,20 @@ pub struct DItem {
     pub stop_at: Option<u64>,
     /// start this item with an empty table
     pub fresh: bool,
+    /// search a copy of the table and throw the copy away afterwards
+    pub isolated: bool,
+    /// enumerate the stop instant: run the search once unstopped on a copy of the table (P polls), then once per
+    /// chosen stop index k, each on a fresh copy. k ranges over all of 0..=P when P <= all_upto, otherwise over
+    /// 0..=head, the polls around each `info depth` line, and `samples` seeded values.
+    pub sweep: Option<Sweep>,
+}
+
+#[derive(Clone, Debug, PartialEq)]
+pub struct Sweep {
+    pub all_upto: u64,
+    pub head: u64,
+    pub samples: u64,
+    pub seed: u64,
 }
 
 #[derive(Clone, Debug, PartialEq)]
@@ -140,7 +154,8 @@ impl Case {
         let items: Vec<Value> = self
             .items
             .iter()
-            .map(|i| json!({"root": i.root, "moves": i.moves, "depth": i.depth, "stop_at": i.stop_at, "fresh": i.fresh}))
+            .map(|i| json!({"root": i.root, "moves": i.moves, "depth": i.depth, "stop_at": i.stop_at, "fresh": i.fresh, "isolated": i.isolated,
+                "sweep": i.sweep.as_ref().map(|w| json!({"all_upto": w.all_upto, "head": w.head, "samples": w.samples, "seed": w.seed}))}))
             .collect();
         let policy = match &self.params.policy {
             Policy::Np => json!({"kind": "np"}),
@@ -268,6 +283,13 @@ impl Case {
                 depth: it["depth"].as_u64().map(|d| d as u8),
                 stop_at: it["stop_at"].as_u64(),
                 fresh: it["fresh"].as_bool().unwrap_or(false),
+                isolated: it["isolated"].as_bool().unwrap_or(false),
+                sweep: if it["sweep"].is_object() {
+                    let w = &it["sweep"];
+                    Some(Sweep { all_upto: u(w, "all_upto")?, head: u(w, "head")?, samples: u(w, "samples")?, seed: u(w, "seed")? })
+                } else {
+                    None
+                },
             });
         }
         Ok(Case {
